@@ -137,3 +137,116 @@ func init() {
 		return tuple{iface{t: types.NewPointer(t), v: &cell}, nilError()}
 	}
 }
+
+// ---- aucoalesce: a model of CoalesceMessages for concrete single-record events -----------------
+// The real function normalises through tables built by reflection from embedded YAML, which the
+// engine does not execute. The model reports what the correlator consumes: record type, timestamp,
+// the record's ses= and pid= fields (4294967295 -> "unset") and a result derived from res=/success=.
+// It is cross-checked against the real function whenever a witness of a harness that uses it is
+// replayed natively.
+
+func auditField(raw, key string) (string, bool) {
+	for _, tok := range strings.Fields(raw) {
+		if strings.HasPrefix(tok, key+"=") {
+			v := strings.TrimPrefix(tok, key+"=")
+			return strings.Trim(v, `"'`), true
+		}
+	}
+	return "", false
+}
+
+func init() {
+	st := exactStubs
+	A := "github.com/elastic/go-libaudit/v2/aucoalesce."
+	st[A+"ResolveIDs"] = func(fr *frame, args []value) value { return nil }
+	st[A+"CoalesceMessages"] = func(fr *frame, args []value) value {
+		p := fr.i.p
+		msgs, _ := args[0].([]value)
+		resT := fr.fn.Signature.Results().At(0).Type() // *Event
+		if len(msgs) == 0 {
+			return tuple{zero(resT), fr.i.mkError("aucoalesce: no messages")}
+		}
+		evT := resT.Underlying().(*types.Pointer).Elem()
+		ev := zero(evT).(structure)
+		evS := evT.Underlying().(*types.Struct)
+		fieldIdx := func(s *types.Struct, name string) int {
+			for k := 0; k < s.NumFields(); k++ {
+				if s.Field(k).Name() == name {
+					return k
+				}
+			}
+			p.abort("unsupported", "aucoalesce model: no field "+name)
+			return -1
+		}
+		m0p, _ := msgs[0].(*value)
+		if m0p == nil {
+			return tuple{zero(resT), fr.i.mkError("aucoalesce: nil message")}
+		}
+		m0 := (*m0p).(structure) // RecordType, Timestamp, Sequence, RawData, ...
+		raw, ok := m0[3].(string)
+		if !ok {
+			p.abort("unsupported", "aucoalesce model needs concrete record text")
+		}
+		ev[fieldIdx(evS, "Timestamp")] = m0[1]
+		ev[fieldIdx(evS, "Sequence")] = m0[2]
+		ev[fieldIdx(evS, "Type")] = m0[0]
+		ses, _ := auditField(raw, "ses")
+		if ses == "4294967295" {
+			ses = "unset"
+		}
+		ev[fieldIdx(evS, "Session")] = ses
+		res := "fail"
+		if v, ok := auditField(raw, "res"); ok && (v == "1" || v == "success") {
+			res = "success"
+		} else if v, ok := auditField(raw, "success"); ok && v == "yes" {
+			res = "success"
+		}
+		ev[fieldIdx(evS, "Result")] = res
+		pi := fieldIdx(evS, "Process")
+		proc := ev[pi].(structure)
+		procS := evS.Field(pi).Type().Underlying().(*types.Struct)
+		pid, _ := auditField(raw, "pid")
+		proc[fieldIdx(procS, "PID")] = pid
+		var cell value = ev
+		return tuple{&cell, nilError()}
+	}
+	V := verifrtPath + "."
+	st[V+"OutputEvents"] = func(fr *frame, args []value) value {
+		p := fr.i.p
+		var out []value
+		s, ok := p.sinks[args[0].(string)]
+		if !ok {
+			return out
+		}
+		for _, w := range s.writes {
+			for _, b := range w.([]value) {
+				o, ok := b.(*opaque)
+				if !ok || o.kind != "json" {
+					continue
+				}
+				desc := "?"
+				if evp, ok := o.data["$value"].(*value); ok && evp != nil {
+					if ev, ok := (*evp).(structure); ok && len(ev) > 5 {
+						typ, _ := ev[1].(string)
+						aid := ""
+						if md, ok := ev[0].(structure); ok {
+							aid, _ = md[0].(string)
+						}
+						if typ == "UserLogin" {
+							aid = "-" // a fresh uuid natively
+						}
+						who := ""
+						if subj, ok := ev[5].(*amap); ok && subj != nil {
+							if e := p.mapFind(subj, "loggedAs"); e != nil {
+								who, _ = e.val.(string)
+							}
+						}
+						desc = typ + "|" + aid + "|" + who
+					}
+				}
+				out = append(out, desc)
+			}
+		}
+		return out
+	}
+}
